@@ -284,7 +284,7 @@ class MappingStorage:
         self._commit_lock.release()
 
     # ZODB.interfaces.IStorage
-    def tpc_begin(self, transaction, tid=None):
+    def tpc_begin(self, transaction, tid=None, status=' '):
         with self._lock:
 
             ZODB.utils.check_precondition(self.opened)
